@@ -719,6 +719,30 @@ class Interp:
     _e_SetComp = _e_ListComp
 
     def _e_DictComp(self, fr, e):
+        # {f(k): g(k, v) for k, v in D.items()} over the concrete keys of a heap dict: one cell per key
+        if len(e.generators) == 1 and not e.generators[0].ifs:
+            g = e.generators[0]
+            it = g.iter
+            if isinstance(it, ast.Call) and isinstance(it.func, ast.Attribute) and it.func.attr in ("items", "keys") and not it.args:
+                base = self.eval(fr, it.func.value)
+                if isinstance(base, Ref) and isinstance(self.obj(base), HDict) and self.obj(base).default is None and self.obj(base).cells:
+                    saved = dict(fr.env)
+                    cells = {}
+                    ok = True
+                    for k in sorted(self.obj(base).cells):
+                        cell = self.obj(base).cells.get(k)
+                        if cell is None:
+                            continue
+                        val = Tup((Const(k), cell)) if it.func.attr == "items" else Const(k)
+                        self.assign(fr, g.target, val, None)
+                        kv = self.eval(fr, e.key)
+                        if not (isinstance(kv, Const) and isinstance(kv.value, str)):
+                            ok = False
+                            break
+                        cells[kv.value] = self.eval(fr, e.value)
+                    fr.env = saved
+                    if ok:
+                        return self.new_dict(cells, None)
         saved = dict(fr.env)
         for g in e.generators:
             self.assign(fr, g.target, self.iter_elem(fr, g.iter), None)
